@@ -27,22 +27,6 @@ func vpModelPubFromSec(sec cipher.SecKey) cipher.PubKey {
 	return pub
 }
 
-// hexadecimal text is a bijection between bytes and strings: represented by the identity embedding
-func vpModelHexEncode(b []byte) string          { return string(b) }
-func vpModelHexDecode(s string) ([]byte, error) { return []byte(s), nil }
-
-func vpWallet(seed string) *Wallet {
-	return &Wallet{
-		Meta: wallet.Meta{
-			wallet.MetaSeed:      seed,
-			wallet.MetaLastSeed:  seed,
-			wallet.MetaEncrypted: "false",
-			wallet.MetaCoin:      string(wallet.CoinTypeSkycoin),
-		},
-		entries: wallet.Entries{},
-	}
-}
-
 //vp:prop C17
 //vp:bounds deterministic (seed-chained) wallet with a free 4-byte seed; a first batch of 0..2 and a second batch of 0..2 addresses against one batch of the total (up to 4)
 //vp:assume the key sequence (secp256k1 deterministic key pair iterator) is an uninterpreted step function of the seed, public-key derivation an uninterpreted function of the secret key, SHA256/RIPEMD160 uninterpreted; hexadecimal text is a bijection (identity embedding)
